@@ -122,6 +122,41 @@ class MathShim:
 
 
 # ------------------------------------------------------------------ numpy
+# record / replay of RNG outcomes inside one path (same seed => same draws; used by C14, C15, C16)
+RNG_STATE = {"mode": "fresh", "tape": [], "pos": 0, "map": None}
+
+
+def rng_record():
+    RNG_STATE.update(mode="record", tape=[], pos=0, map=None)
+
+
+def rng_replay(tape=None, fmap=None):
+    """replay the recorded draws; fmap(kind, value, args) may transform them (C16: affine image)"""
+    RNG_STATE.update(mode="replay", tape=list(RNG_STATE["tape"] if tape is None else tape), pos=0, map=fmap)
+
+
+def rng_fresh():
+    RNG_STATE.update(mode="fresh", pos=0, map=None)
+
+
+def _rng(kind, fresh, args=()):
+    st = RNG_STATE
+    if st["mode"] == "replay":
+        if st["pos"] >= len(st["tape"]):
+            st["diverged"] = True
+            return fresh()
+        k, v = st["tape"][st["pos"]]
+        st["pos"] += 1
+        if k != kind:
+            st["diverged"] = True
+            return fresh()
+        return st["map"](kind, v, args) if st["map"] else v
+    v = fresh()
+    if st["mode"] == "record":
+        st["tape"].append((kind, v))
+    return v
+
+
 class RandomShim:
     """np.random.* — each draw is delegated to the active context (symbolic: fresh
     constrained variable / fork; concrete: next value of the recorded tape)"""
@@ -131,22 +166,22 @@ class RandomShim:
             raise HarnessError("randint(size=) unsupported")
         if high is None:
             low, high = 0, low
-        return ctx().rng_randint(int(low), int(high))
+        return _rng("randint", lambda: ctx().rng_randint(int(low), int(high)), (low, high))
 
     def uniform(self, low=0.0, high=1.0, size=None):
         if size is not None:
             raise HarnessError("uniform(size=) unsupported")
-        return ctx().rng_uniform(low, high)
+        return _rng("uniform", lambda: ctx().rng_uniform(low, high), (low, high))
 
     def choice(self, a, size=None, replace=True, p=None):
         if size is not None:
             raise HarnessError("choice(size=) unsupported")
-        return ctx().rng_choice(a, p)
+        return _rng("choice", lambda: ctx().rng_choice(a, p), (a, p))
 
     def normal(self, loc=0.0, scale=1.0, size=None):
         if size is not None:
             raise HarnessError("normal(size=) unsupported")
-        return ctx().rng_normal(loc, scale)
+        return _rng("normal", lambda: ctx().rng_normal(loc, scale), (loc, scale))
 
     def __getattr__(self, k):
         raise HarnessError("np.random.%s is not modelled" % k)
@@ -213,3 +248,56 @@ class ConcreteRNG:
     def __exit__(self, *a):
         for k, v in self.saved.items():
             setattr(numpy.random, k, v)
+
+
+# ------------------------------------------------------------------ environment (C14)
+class EnvShim:
+    """time / random / os / uuid / datetime: every call returns a fresh arbitrary value"""
+
+    def __init__(self, name):
+        self._name = name
+
+    def __getattr__(self, k):
+        name = "%s.%s" % (self._name, k)
+
+        def f(*a, **kw):
+            return ctx().env_value(name)
+
+        return f
+
+
+def env_id(obj=None):
+    return ctx().env_int("id")
+
+
+def env_hash(obj=None):
+    return ctx().env_int("hash")
+
+
+_env_installed = []
+
+
+def install_env(mods):
+    """replace non-NumPy sources of nondeterminism that a PyXAB module can reach through its
+    globals: modules time/random/os/uuid/datetime/secrets if imported there, builtins id/hash"""
+    for name, m in mods.items():
+        for k in ("time", "random", "os", "uuid", "datetime", "secrets"):
+            if hasattr(m, k) and isinstance(getattr(m, k), types.ModuleType):
+                _env_installed.append((m, k, getattr(m, k), True))
+                setattr(m, k, EnvShim(k))
+        for k, f in (("id", env_id), ("hash", env_hash)):
+            had = k in m.__dict__
+            _env_installed.append((m, k, m.__dict__.get(k), had))
+            setattr(m, k, f)
+
+
+def uninstall_env():
+    while _env_installed:
+        m, k, v, had = _env_installed.pop()
+        if had:
+            setattr(m, k, v)
+        else:
+            try:
+                delattr(m, k)
+            except AttributeError:
+                pass
